@@ -370,14 +370,56 @@ def r24_3(ctx):
               "the tunnel connection is not a Server for the address in ctx.server.via (the upstream proxy)", desc=f"make: cls(ctx, {norm(arg)}=Server(address=via[1]), ...)")
 
 
-def check(ctx):
-    ctx.rule("R24.1", "UpstreamAuth.auth is read only in requestheaders / http_connect_upstream; class, option and parser are referenced nowhere else")
-    ctx.rule("R24.2", "decision table of the two hook methods: Proxy-Authorization iff (Upstream, http, not tunnelled) or CONNECT-to-proxy; Authorization iff Reverse")
-    ctx.rule("R24.4", "requests received inside a client CONNECT tunnel (upstream mode) never get Proxy-Authorization: they are relayed to the origin (F-C24)")
-    ctx.rule("R24.3", "HttpConnectUpstreamHook only in start_handshake under send_connect, flow request is the CONNECT, bytes go to tunnel_connection = Server(via)")
-    ctx.trust("addon manager dispatches a hook to the addon method named after it; http1.assemble_request serialises exactly the request given")
-    r24_1(ctx)
+def r24_5(ctx):
+    """Decision of both hook methods extracted by interpreting their AST (pyint) - robust against refactors such as table dispatch."""
+    from ..pyint import DictRec
+    from ..pyint import Interp
+    from ..pyint import Raised
+    from ..pyint import Rec
 
+    modes = mode_classes(ctx)
+    AUTH = b"Basic dXNlcjpwYXNz"
+    n = 0
+    bad = 0
+    for meth in ("requestheaders", "http_connect_upstream"):
+        fn = ctx.func(UA, f"UpstreamAuth.{meth}")
+        for auth in (AUTH, None):
+            for mode in modes if meth == "requestheaders" else ["UpstreamMode"]:
+                for scheme in ("http", "https"):
+                    it = Interp(ctx.model, trusted_modules={"base64": __import__("base64"), "re": __import__("re")})
+                    anc = [c.name for _, c in ctx.model.mro(MODE_SPECS, mode)]
+                    headers = DictRec("Headers", {"Host": "example.com", "Accept": "*/*"}, case_insensitive=True, _name="request.headers")
+                    req = Rec("Request", _name="request", scheme=scheme, headers=headers, method="CONNECT" if meth == "http_connect_upstream" else "GET", host="example.com", port=80 if scheme == "http" else 443,
+                              authority="example.com", path="/", http_version="HTTP/1.1", is_http2=False, is_http3=False, is_http11=True, is_http10=False, first_line_format="absolute")
+                    mode_rec = Rec(mode, _bases=tuple(anc[1:]), _impl=(MODE_SPECS, mode), scheme="http", transport_protocol="tcp", full_spec=mode, type_name=mode)
+                    flow = Rec("HTTPFlow", _name="flow", request=req, response=None, client_conn=Rec("Client", proxy_mode=mode_rec, tls=scheme == "https", tls_established=scheme == "https"),
+                               server_conn=Rec("Server", via=None, address=("example.com", 80), tls=scheme == "https"), metadata=DictRec("dict", {}, _name="flow.metadata"), is_replay=None, live=True)
+                    self_rec = Rec("UpstreamAuth", _impl=(UA, "UpstreamAuth"), auth=auth)
+                    try:
+                        it.method(self_rec, meth, flow)
+                        outcome = {k.lower(): v for k, v in headers._items.items() if k.lower() in ("proxy-authorization", "authorization")}
+                    except Raised as r:
+                        outcome = f"raises {r.name}"
+                    if meth == "http_connect_upstream":
+                        want = {"proxy-authorization": AUTH} if auth else {}
+                    elif auth and mode == "UpstreamMode" and scheme == "http":
+                        want = {"proxy-authorization": AUTH}
+                    elif auth and mode == "ReverseMode":
+                        want = {"authorization": AUTH}
+                    else:
+                        want = {}
+                    n += 1
+                    ctx.cells += 1
+                    if outcome != want:
+                        bad += 1
+                        got_txt = outcome if isinstance(outcome, str) else sorted(outcome)
+                        ctx.fail("R24.5", (UA, f"UpstreamAuth.{meth}", fn), f"{meth}: mode={mode} scheme={scheme} auth={'set' if auth else 'unset'} -> {got_txt}, expected {sorted(want)}",
+                                 "upstream credentials are attached to a request that does not go to the upstream proxy / reverse target (or withheld where they belong)")
+    if not bad:
+        ctx.ok("R24.5", f"{n} cells (auth x mode x scheme, both hook methods) interpreted from the AST agree with the reference")
+
+
+def r24_tables(ctx):
     modes = mode_classes(ctx)
     for need in ("UpstreamMode", "ReverseMode", "RegularMode"):
         ctx.require(need in modes, f"mode_specs.{need} vanished")
@@ -402,11 +444,36 @@ def check(ctx):
     ctx.expect_instances("R24.2", 1)
     ctx.assume("tunnelled=yes: plain-HTTP request received inside a client CONNECT tunnel in upstream mode; it is relayed through the tunnel to the origin")
 
-    r24_3(ctx)
+
+
+def check(ctx):
+    ctx.rule("R24.5", "both hook methods, interpreted from their AST on every (auth, mode, scheme) cell, write exactly the reference headers with the configured value")
+    ctx.rule("R24.1", "UpstreamAuth.auth is read only in requestheaders / http_connect_upstream; class, option and parser are referenced nowhere else")
+    ctx.rule("R24.2", "decision table of the two hook methods: Proxy-Authorization iff (Upstream, http, not tunnelled) or CONNECT-to-proxy; Authorization iff Reverse")
+    ctx.rule("R24.4", "requests received inside a client CONNECT tunnel (upstream mode) never get Proxy-Authorization: they are relayed to the origin (F-C24)")
+    ctx.rule("R24.3", "HttpConnectUpstreamHook only in start_handshake under send_connect, flow request is the CONNECT, bytes go to tunnel_connection = Server(via)")
+    ctx.trust("addon manager dispatches a hook to the addon method named after it; http1.assemble_request serialises exactly the request given")
+    ctx.guard(r24_1, ctx)
+    ctx.guard(r24_5, ctx)
+    ctx.guard(r24_tables, ctx)
+
+    ctx.guard(r24_3, ctx)
     ctx.expect_instances("R24.3", 5)
 
 
 MUTANTS = [
+    Mutant("table-dispatch-loses-scheme", UA, """            if (
+                isinstance(f.client_conn.proxy_mode, mode_specs.UpstreamMode)
+                and f.request.scheme == "http"
+            ):
+                f.request.headers["Proxy-Authorization"] = self.auth
+            elif isinstance(f.client_conn.proxy_mode, mode_specs.ReverseMode):
+                f.request.headers["Authorization"] = self.auth
+""", """            header = {mode_specs.UpstreamMode: "Proxy-Authorization", mode_specs.ReverseMode: "Authorization"}.get(type(f.client_conn.proxy_mode))
+            if header:
+                f.request.headers[header] = self.auth
+""", "R24.5"),
+    Mutant("header-value-not-configured-auth", UA, '                f.request.headers["Authorization"] = self.auth', '                f.request.headers["Authorization"] = b"Basic Og=="', "R24.5"),
     Mutant("auth-read-in-new-hook", UA, "    def requestheaders(self, f: http.HTTPFlow):\n",
            "    def request(self, f: http.HTTPFlow):\n        if self.auth:\n            f.request.headers[\"Proxy-Authorization\"] = self.auth\n\n    def requestheaders(self, f: http.HTTPFlow):\n", "R24.1"),
     Mutant("creds-exported-elsewhere", "mitmproxy/addons/proxyauth.py", "from mitmproxy import ctx\n", "from mitmproxy import ctx\nfrom mitmproxy.addons.upstream_auth import parse_upstream_auth\n", "R24.1"),
